@@ -136,7 +136,7 @@ def run_histories(pid, harness, module, histories, variant="asan", nchunks=None,
             jobs.append((exe, module, workdir, k, hs, htimeout, tlc_timeout, extra_args, tlc_env))
     failures = []
     counters = {}
-    stats = {"histories": n, "records": 0, "tlc_wall": 0.0, "infra": []}
+    stats = {"histories": n, "records": 0, "tlc_wall": 0.0, "infra": [], "drift": []}
     with cf.ThreadPoolExecutor(max_workers=nchunks) as ex:
         for out in ex.map(_chunk_job, jobs):
             k = out["k"]; base0 = bounds[k]
@@ -146,6 +146,7 @@ def run_histories(pid, harness, module, histories, variant="asan", nchunks=None,
                 failures.append(Failure("CRASH", "crash rc=%d" % c["rc"], base0 + c["history"], c["step"], "?", c["stderr"]))
             for res in out["results"]:
                 stats["records"] += res.get("n", 0)
+                stats["drift"] += res.get("drift", [])
                 for kk, v in (res.get("cnt") or {}).items():
                     counters[kk] = counters.get(kk, 0) + v
                 # map exec index -> history
